@@ -371,6 +371,44 @@ func c01Record(c *h.Ctx) error {
 		events++
 		c.Case(fmt.Sprint(tr))
 	}
+	// forks: an MD4 value copied with `f := *m` is a second, independent hash state (the type holds its state in arrays); both
+	// lineages are written to in turn and each must give the digest of ITS bytes -- judged by TLC as two ordinary traces
+	for tr := 0; tr < traces/2+1; tr++ {
+		m := md4.New()
+		pre := make([]byte, []int{0, 1, 7, 55, 56, 60, 63, 64, 65, 100, 127, 128}[tr%12]+rng.Intn(3))
+		rng.Read(pre)
+		m.Write(pre)
+		histA := append([]byte(nil), pre...)
+		histB := append([]byte(nil), pre...)
+		if tr%3 == 0 {
+			m.Sum() // a digest taken before the fork
+		}
+		fork := *m
+		for round := 0; round < 2+rng.Intn(3); round++ {
+			a := make([]byte, []int{1, 5, 8, 9, 63, 64, 70}[rng.Intn(7)])
+			b := make([]byte, len(a))
+			rng.Read(a)
+			rng.Read(b)
+			m.Write(a)
+			fork.Write(b)
+			histA = append(histA, a...)
+			histB = append(histB, b...)
+		}
+		dB := fork.Sum()
+		dA := m.Sum()
+		for _, x := range []struct {
+			hist []byte
+			d    [16]byte
+		}{{histA, dA}, {histB, dB}} {
+			c.Emit([]byte(`{"op":"reset"}`))
+			b, _ := json.Marshal(map[string]interface{}{"op": "write", "b": h.Bytes(x.hist)})
+			c.Emit(b)
+			b, _ = json.Marshal(map[string]interface{}{"op": "sum", "d": h.Bytes(x.d[:])})
+			c.Emit(b)
+			events += 2
+		}
+		c.Case(fmt.Sprintf("fork:%d", tr))
+	}
 	// long messages: TLC cannot read 64 MiB, but the digest of P is the chaining value after P || pad(P), so the digest of
 	// P || pad(P) || x follows from the reported digest of P (MD4Extend in MD4.tla).  Both are asked of the real code; the
 	// lengths sit around 2^26 bytes (bit count 2^29) and, with longmax=1, 2^29 bytes (bit count 2^32).
